@@ -10,11 +10,12 @@
    action properties: PRINT/CLS never change a row outside the window (other
    than the bottom row the cursor was explicitly put on), a successful LOCATE
    r,c is reported back by CSRLIN/POS.                                        *)
-EXTENDS TextScreen, TLC
+EXTENDS TextScreen, TLC, FiniteSets, SequencesExt
 CONSTANTS W, H, W2, Chars, D,
-          Walk     \* TRUE: one randomly chosen statement per step (deep random walks with -simulate)
-VARIABLES st, act, ghost, n
-vars == <<st, act, ghost, n>>
+          Walk,    \* TRUE: NWalks random walks of D statements (one randomly chosen statement per step)
+          NWalks, Seed
+VARIABLES st, act, ghost, n, walk
+vars == <<st, act, ghost, n, walk>>
 
 Ctl == {9, 10, 11, 12, 13, 28, 29, 30, 31}
 \* plain text of length k: alternating characters, so that the placement law is sensitive to order
@@ -34,7 +35,10 @@ Actions(s) ==
 \* does the print item start on a new row because it does not fit (then the placement law does not speak)
 Breaks(s, x) == s.row # s.h /\ s.col # 1 /\ ~s.ovf /\ s.col - 1 + Len(x) > s.w
 
+Lcg(x) == (x * 75 + 74) % 65537
+Pick(S, x) == SetToSeq(S)[1 + ((x \div 5) % Cardinality(S))]
 Init == st = Fresh(W, H, 0) /\ act = [op |-> "init"] /\ ghost = [ok |-> TRUE, s |-> <<>>] /\ n = 0
+        /\ walk \in (IF Walk THEN {Lcg(Lcg((Seed * 7919 + i * 4999) % 65537)) : i \in 1..NWalks} ELSE {0})
 Do(a) ==
     LET ok == RefOk(st, a)
         s1 == IF ok THEN Effect(st, a) ELSE st
@@ -46,10 +50,13 @@ Do(a) ==
                     ELSE IF a.op = "print" /\ ~a.nl /\ IsPlain(a.s) /\ ghost.ok /\ ~Breaks(st, a.s)
                          THEN [ghost EXCEPT !.s = ghost.s \o a.s]
                     ELSE [ghost EXCEPT !.ok = FALSE]
-Next == n < D /\ \E a \in (IF Walk THEN {RandomElement(Actions(st))} ELSE Actions(st)) : Do(a)
+Next == /\ n < D
+        /\ walk' = IF Walk THEN Lcg(walk) ELSE walk
+        /\ \E a \in (IF Walk THEN {Pick(Actions(st), Lcg(walk))} ELSE Actions(st)) : Do(a)
 Spec == Init /\ [][Next]_vars
 
 Inv == InScreen(st) /\ ReportsInScreen(st) /\ WindowOk(st)
+ShortcutSound == WriteChar(st, 65) = WriteCharFull(st, 65)
 PlacementLaw == ghost.ok => Placement(st, ghost.s)
 OutsideWindowUnchanged ==
     [][(act'.op \in {"print", "cls"} /\ (act'.op = "cls" => st.view))
